@@ -342,9 +342,11 @@ def c16(tier, seed, work):
             dict(name="c16-dcmi", module="MCGenDcmi", cfg_tpl="Gen_Cipher.cfg.tpl", family="paging", tier=tier, seed=seed)]
     muts = [("MCCipherSelect", "Mutant_CipherSelect_ShortStop.cfg", "C16_StopsAtShortChunkInclExactMultiple"),
             ("MCCipherSelect", "Mutant_CipherSelect_Concat.cfg", "C16_MalformedGivesErrorNotPartial"),
+            ("MCCipherSelect", "Mutant_CipherSelect_Bound.cfg", "C16_AllRecordsExpandedInOrder"),
             ("DcmiPaging", "Mutant_DcmiPaging_Advance.cfg", "C16_AllRecordIDsInOrderNoDup"),
             ("DcmiPaging", "Mutant_DcmiPaging_Fallback.cfg", "C16_AllRecordIDsInOrderNoDup")]
-    return walk_check("C16", tier, seed, work, [("MCCipherSelect", "MC_CipherSelect.cfg"), ("DcmiPaging", "MC_DcmiPaging.cfg")],
+    return walk_check("C16", tier, seed, work, [("MCCipherSelect", "MC_CipherSelect.cfg"), ("MCCipherSelect", "MC_CipherSelect_Bound.cfg"),
+                                                ("DcmiPaging", "MC_DcmiPaging.cfg")],
                       muts if tier != "quick" else [], fams,
                       "DcmiPaging.tla (per-entity instance lists, page size, IPMI/DCMI entity families, error for IPMI IDs) checked "
                       "exhaustively for counts 0..4 x page sizes 1..3 x both families; generated instance counts up to 255 x page sizes "
@@ -577,7 +579,8 @@ def c06_vec(tier, seed, work):
 
 def c17(tier, seed, work):
     res = c17_vec(tier, seed, work)
-    return add_walk(res, work, [dict(name="c17-api", module="MCGenApi", cfg_tpl="Gen_Cipher.cfg.tpl", family="api", tier=tier, seed=seed)],
+    return add_walk(res, work, [dict(name="c17-api", module="MCGenApi", cfg_tpl="Gen_Cipher.cfg.tpl", family="api", tier=tier, seed=seed),
+                                dict(name="c17-cipher", module="MCGenCipher", cfg_tpl="Gen_Cipher.cfg.tpl", family="reuse", tier=tier, seed=seed)],
                     "Connection level: every command once on one connection / session in table order and in reverse order; the value decoded "
                     "for each command in the reversed history must still agree with the specification (nothing survives from earlier responses).")
 
@@ -600,6 +603,7 @@ def c05(tier, seed, work):
                    "message, a checksum-valid response without completion code, wrong checksums, malformed confidentiality payloads, "
                    "other payload types.")
     res = add_walk(res, work, [dict(name="c05-discovery", module="MCGenCipher", cfg_tpl="Gen_Cipher.cfg.tpl", family="discovery", tier=tier, seed=seed),
+                               dict(name="c05-endless", module="MCGenCipher", cfg_tpl="Gen_Cipher.cfg.tpl", family="endless", tier=tier, seed=seed),
                                dict(name="c05-sdr", module="MCGenSdr", cfg_tpl="Gen_Cipher.cfg.tpl", family="plain", tier="quick", seed=seed, opts={"exact": True})],
                    "Protocol positions: malformed and truncated cipher-suite record data during discovery; SDR walks with exact-capacity "
                    "receive slices.")
